@@ -53,7 +53,7 @@ CLAIMS = {
               "trees, domains, numbers of variables, activations. Tie: exact row SEQUENCES of generated cases - projections included, "
               "against the D-model - on every run; cached configuration and re-evaluation against the specification."),
         design='7/C02 + 12.7', technique='Coq proof (partition/cover invariant by structural induction, counting argument; cover-up-to-required-variables invariant over all activations for the de-duplicating evaluator, over translator-extracted requirement tables) + correspondence on exact row sequences',
-        note=BASE_NOTE + " The D-model covers comparisons, membership tests, expressions in condition position, and_/or_/not_ (any nesting) and nested queries in condition position; de-duplication inside for_all, rows carrying flattened elements (identified by position in the implementation) and the cached replay path are outside it (set-level tie / C05). Selected EXPRESSIONS other than variables are covered by C19_selected (one variable), C02_row_values and by correspondence."),
+        note=BASE_NOTE + " The D-model covers comparisons, membership tests, expressions in condition position, and_/or_/not_ (any nesting), nested queries in condition position and for_all over a plain variable;  rows carrying flattened elements (identified by position in the implementation) and the cached replay path are outside it (set-level tie / C05). Selected EXPRESSIONS other than variables are covered by C19_selected (one variable), C02_row_values and by correspondence."),
     'C03': dict(
         text=("Machine-checked theorems over Generated.v (the inverse-operator table and the Not dispatch are extracted from symbolic.py by the "
               "fail-closed translator on every run): the table is total, every row is the TRUE inverse on all operand pairs and it is "
@@ -105,7 +105,7 @@ CLAIMS = {
               "C10_intersection (running intersection with early exit = matched in every pass; induction over the universal domain). "
               "Tie: generated for_all queries (condition over the universal variable, the free variables, both, neither; universal "
               "EXPRESSIONS such as for_all(u.peer, c) whose values repeat; alone or and_-ed on either side) compared with the model and the "
-              "quantified specification, caching off and on, evaluated twice."),
+              "quantified specification, caching off and on, evaluated twice. C10_forall_dedup: the evaluator WITH its de-duplication of rows (Dedup.v) computes for_all exactly like that - every pass starts from a fresh state and for_all requires every variable of its condition (read from ForAll._required_variables_from_child_ by the translator on every run), so nothing is dropped inside a pass, whatever the query selects; for_all cases (projections included) are tied by exact row sequences."),
         design='7/C10', technique='Coq proof (partition invariant with a pre-bound variable + completion of free variables + intersection lemma by induction over the universal domain) + P-model correspondence',
         note=BASE_NOTE + " The free variables are assumed to range over objects (rows of different passes are compared by Python equality, which is identity on them). for_all under or_/not_ and for_all nested in for_all are outside the proved fragment (basic excludes CForAll inside c)."),
     'C15': dict(
